@@ -4,12 +4,13 @@ CHECK = dict(
     variants=[dict(name="asan", flavour="asan")],
     floor={"asan:owned_array_copies": 200, "asan:fixed_array_copies": 100, "asan:fixed_array_views": 200,
            "asan:dataview_layouts": 100, "asan:wrapper_readouts": 10000,
-           "asan:owned_array_ops_failed_by_failpoint": 200, "asan:dataview_resets": 2000, "asan:owned_array_self_sourced_resets": 200},
+           "asan:owned_array_ops_failed_by_failpoint": 200, "asan:dataview_resets": 2000, "asan:dataview_strides_not_multiple_of_element_size": 1000, "asan:owned_array_self_sourced_resets": 200},
     assumptions=[
         "after an OwnedArray operation in which an element copy throws (failpoint) the array may hold the old or the new size and any "
         "per-index mix of old and new elements; what is demanded is that size()/data() describe live storage of exactly those",
         "non-owning ArrayViews are detached before the harness destroys or grows the vector they view (they are documented as non-owning)",
         "assigning to a shared FixedArray while a FixedArrayView onto it exists is not generated",
-        "DataView strides are multiples of sizeof(T) (unaligned strides are the caller's undefined behaviour)",
+        "DataView strides are multiples of alignof(T) - of sizeof(T) for scalar elements, any multiple of the alignment for record "
+        "elements, incl. 0 and overlapping windows (unaligned strides are the caller's undefined behaviour)",
     ],
 )
